@@ -12,6 +12,10 @@ def gen_case(rng):
     if kind == "nuc":
         alpha = rng.choice(["ACGT", "ACGU", "ACGTU", "ACGTN"])
         seqs = gen.family(rng, n, L, alpha, "random", 0.15, 0.04, 3)
+        if rng.random() < 0.35:
+            # equal lengths: the canonical order then hangs on tie-breaking only
+            root = gen.rand_seq(rng, L, alpha)
+            seqs = [gen.mutate(rng, gen.mutate(rng, root, alpha, 0.1, 0.03, 2), alpha, 0.05, 0.0)[:L].ljust(L, alpha[0]) for _ in range(n)]
         if rng.random() < 0.4:
             seqs = ["".join(rng.choice("RYSWKMBDHV") if rng.random() < 0.04 else c for c in s) for s in seqs]
     else:
